@@ -590,6 +590,10 @@ class Evaluator:
             return self.eval(f.node.body, fr)
         if isinstance(f, ClassV):
             return self.instantiate(f.ci, args, kwargs, node)
+        if isinstance(f, ExtV) and f.dotted == "sa.wraps" and len(args) == 1:
+            if isinstance(args[0], FuncV):
+                args[0].wrapped = f.wrapped
+            return args[0]
         if isinstance(f, ExtV):
             return self.lib.call_ext(self, f.dotted, args, kwargs, node)
         if isinstance(f, BoundExt):
@@ -826,6 +830,8 @@ class Evaluator:
             a, b = self.getattr(v.args[1], name, node), self.getattr(v.args[2], name, node)
             if isinstance(a, V) and isinstance(b, V):
                 return ite(v.args[0], a, b)
+        if isinstance(v, FuncV) and name == "__wrapped__" and getattr(v, "wrapped", None) is not None:
+            return v.wrapped
         if isinstance(v, (Lst, Dct, V, FuncV, LambdaV)) or type(v).__name__ == "ListElem":
             return self.lib.value_attr(self, v, name, node)
         raise AnalysisError("attribute %s of %r" % (name, v))
@@ -931,6 +937,8 @@ class Evaluator:
             self.event("attr_store", obj=target, attr=name, value=value, in_init=target.in_init > 0, node=node, empty=_is_empty_container(value))
             target.attrs[name] = value
             return
+        if isinstance(target, (FuncV, LambdaV)) and name in ("__doc__", "__name__", "__qualname__", "__module__", "__annotations__", "__signature__"):
+            return      # function metadata: not state of any object the properties talk about
         self.event("foreign_attr_store", target=target, attr=name, node=node)
 
     # ------------------------------------------------------------------ statements
